@@ -10,3 +10,4 @@ open GoRedis
 #print axioms C15_seq_stop
 #print axioms C15_seq_start_serves
 #print axioms C15_source_lifecycle
+#print axioms C15_source_lifecycle_is_the_modelled_one
